@@ -186,8 +186,13 @@ class C14(Machine):
             ns = rng.choice([0, 0, 1, 1, 2])
             for _ in range(ns):
                 # sibling stream: same class (class-level state) most of the time
-                if rng.random() < 0.7:
+                v = rng.random()
+                if v < 0.5:
                     n2, r2, b2, w2 = name, recipe, bb, w
+                elif v < 0.8:
+                    # a cousin: same family, other size / variant
+                    fam = [h for h in HASHES if h[1]["kind"] == recipe["kind"] and h[0] != name]
+                    n2, r2, b2, w2 = rng.choice(fam) if fam else (name, recipe, bb, w)
                 else:
                     n2, r2, b2, w2 = HASHES[rng.randrange(len(HASHES))]
                 self._stream(rng, pb, pb.client(), n2, r2, b2, w2, streams, None, warm=rng.random() < 0.2)
